@@ -10,6 +10,7 @@ import itertools
 
 import gen
 import lib
+import morph
 
 RUNNER = "engine"
 
@@ -41,6 +42,151 @@ def impl_match_actions(rule, action):
         return bool(match_actions(rule, action))
     except Exception:  # noqa: BLE001
         return ["Raise"]
+
+
+# ---- the same target OBJECT, seen by the library in an earlier state, then edited in place -------------------------
+# A policy document is a mutable dict that applications edit and hand back (update_policy / set_policy / a new Guard /
+# evaluate() again).  The statement is about the target AS WRITTEN NOW, so nothing the library derived from an earlier
+# state of the very same dict / list objects may show.  EDITS names how the earlier state differed ("X<-req": that part
+# was taken from the request itself, so the earlier target tended to match; otherwise it was some other value).
+EDITS = ("id", "id<-req", "type", "type<-req", "append", "elem", "attr", "attr<-req", "all", "all<-req",
+         "key-added", "key-removed")
+
+
+_KEEP = object()
+
+
+def _same(a, b):
+    return repr(a) == repr(b)          # type-aware (1 / True / 1.0 / "1" and -0.0 / 0.0 stay apart)
+
+
+def _target_lists(w):
+    out = []
+    if isinstance(w.get("type"), list):
+        out.append(w["type"])
+    for k in ("attrs", "attributes"):
+        if isinstance(w.get(k), dict):
+            out.extend(v for v in w[k].values() if isinstance(v, list))
+    return out
+
+
+def pre_state(rdef, resource, edit):
+    """the EARLIER state of the target object for one edit (a fresh object morph.morph() turns into `rdef` in place:
+    the dict itself, its attrs dict and every list keep their identity), or None if the edit does not apply"""
+    if not isinstance(rdef, dict) or not isinstance(resource, dict):
+        return None
+    w = gen.fresh(rdef)
+    req_attrs = resource.get("attrs") or resource.get("attributes") or {}
+    if not isinstance(req_attrs, dict):
+        req_attrs = {}
+
+    def set_id(v):
+        if "id" in w:
+            w["id"] = v
+
+    def set_type(v):
+        if isinstance(w.get("type"), list):
+            w["type"][:] = [v]
+        elif "type" in w:
+            w["type"] = v
+
+    def set_attrs(value_for):
+        for k in ("attrs", "attributes"):
+            at = w.get(k)
+            if isinstance(at, dict):
+                for ak, av in list(at.items()):
+                    nv = value_for(ak)
+                    if nv is _KEEP:
+                        continue
+                    if isinstance(av, list):
+                        av[:] = [nv]
+                    else:
+                        at[ak] = nv
+
+    def from_req(ak):
+        return gen.fresh(req_attrs[ak]) if ak in req_attrs else _KEEP
+
+    if edit == "id":
+        set_id("zz_other_id")
+    elif edit == "id<-req":
+        if resource.get("id") is not None:
+            set_id(gen.fresh(resource["id"]))
+    elif edit == "type":
+        set_type("zz_other_type")
+    elif edit == "type<-req":
+        if resource.get("type") is not None:
+            set_type(gen.fresh(resource["type"]))
+    elif edit == "append":             # every list had one element less (the edit appends in place)
+        for lst in _target_lists(w):
+            if lst:
+                lst.pop()
+    elif edit == "elem":               # every list had another first element
+        for lst in _target_lists(w):
+            if lst:
+                lst[0] = "zz_other_value"
+    elif edit == "attr":
+        set_attrs(lambda ak: "zz_other_value")
+    elif edit == "attr<-req":
+        set_attrs(from_req)
+    elif edit == "all":
+        w = morph.perturbed({"rules": [{"resource": w}]}, "resource")["rules"][0]["resource"]
+    elif edit == "all<-req":
+        if resource.get("id") is not None:
+            set_id(gen.fresh(resource["id"]))
+        if resource.get("type") is not None:
+            set_type(gen.fresh(resource["type"]))
+        set_attrs(from_req)
+    elif edit == "key-added":          # only the type was written; id / attrs keys were added later
+        for k in [k for k in w if k != "type"]:
+            del w[k]
+    elif edit == "key-removed":        # an id and an attribute were written and deleted later
+        if "id" not in w:
+            w["id"] = "zz_other_id"
+        if "attrs" not in w and "attributes" not in w:
+            w["attrs"] = {"zz_other_key": "zz_other_value"}
+    else:
+        raise ValueError(edit)
+    return None if _same(w, rdef) else w
+
+
+def applicable_edits(rdef, resource):
+    return [e for e in EDITS if pre_state(rdef, resource, e) is not None]
+
+
+def morph_direct_cases(chk, direct):
+    """for the target families of gen_direct: match_resource on the earlier state, edit in place, match again"""
+    out = []
+    k = 0
+    for c in direct:
+        if c["fam"] not in ("type", "id", "attr", "struct"):
+            continue
+        if not isinstance(c["rdef"], dict):
+            continue
+        k += 1
+        if chk.tier == "quick" and (k + chk.seed) % 4:
+            continue                   # quick: every fourth case (rotating with the seed), one edit each
+        edits = applicable_edits(c["rdef"], c["resource"])
+        if not edits:
+            continue
+        if chk.tier == "quick":
+            edits = [edits[(k // 4 + chk.seed) % len(edits)]]
+        for e in edits:
+            out.append({"fam": "morph", "of": c["fam"], "rdef": c["rdef"], "resource": c["resource"],
+                        "strict": c["strict"], "edit": e})
+    return out
+
+
+def run_morph_direct(c):
+    from rbacx.core.policy import match_resource  # noqa: F401  (import errors surface here, not per call)
+
+    w = pre_state(c["rdef"], c["resource"], c["edit"])
+    if w is None:
+        return None
+    res = gen.fresh(c["resource"])
+    before = impl_match_resource(w, res, c["strict"])
+    morph.morph(w, c["rdef"])
+    assert _same(w, c["rdef"]), (w, c["rdef"])
+    return {"earlier_state": before, "now": impl_match_resource(w, res, c["strict"])}
 
 
 def gen_direct(chk):
@@ -97,11 +243,7 @@ def gen_direct(chk):
     return cases
 
 
-def engine_cases(chk):
-    """end to end: one permit rule with the target, through Guard in both modes, as single policy,
-    inside a set and nested set; permit iff the target matches in the engine's mode."""
-    cases = []
-    rng = chk.rng
+def engine_targets():
     targets = []
     for i, ri in itertools.product([1, "1", 1.0, True, "a", None], [1, "1", 1.0, True, "a", None, 0]):
         targets.append(({"type": "doc", "id": i}, {"type": "doc", "id": ri, "attrs": {}}))
@@ -109,13 +251,151 @@ def engine_cases(chk):
         targets.append(({"type": "doc", "attrs": {"k": v}}, {"type": "doc", "id": "x", "attrs": {"k": rv}}))
     for t, rt in itertools.product(["doc", ["doc", "img"], "*", ["*"], "1", ["1"]], ["doc", "img", 1, "1", None, "*"]):
         targets.append(({"type": t}, {"type": rt, "id": "x", "attrs": {}}))
-    for rdef, res in targets:
+    return targets
+
+
+# targets with several constraints at once, so that an edit of ONE part leaves the others deciding (engine-morph only)
+MORPH_TARGETS = [
+    ({"type": "doc", "id": "1", "attrs": {"k": [1, 2]}}, {"type": "doc", "id": "1", "attrs": {"k": 2}}),
+    ({"type": "doc", "id": "1", "attrs": {"k": [1, 2]}}, {"type": "doc", "id": "1", "attrs": {"k": 3}}),
+    ({"type": ["doc", "img"], "attributes": {"level": [1, 2, 3]}}, {"type": "img", "id": "x", "attrs": {"level": 3}}),
+    ({"type": ["doc", "img"], "attributes": {"level": [1, 2, 3]}}, {"type": "img", "id": "x", "attrs": {"level": "3"}}),
+    ({"type": ["doc", "img"], "id": 7, "attrs": {"a": "x", "b": ["y", "z"]}},
+     {"type": "img", "id": 7, "attrs": {"a": "x", "b": "z"}}),
+    ({"type": ["doc", "img"], "id": 7, "attrs": {"a": "x", "b": ["y", "z"]}},
+     {"type": "doc", "id": "7", "attrs": {"a": "x", "b": "y", "c": 0}}),
+    ({"type": "doc", "attrs": {"state": "draft", "n": 1}}, {"type": "doc", "id": "x", "attrs": {"state": "draft", "n": 1}}),
+    ({"type": "doc", "attrs": {"state": "draft", "n": 1}}, {"type": "doc", "id": "x", "attrs": {"state": "published", "n": 1}}),
+]
+
+ROUTES = ("update_policy(same object)", "a new Guard(same object)", "evaluate() / decide() on the same objects")
+
+
+def engine_morph_cases(chk):
+    """end to end: the Guard answers the request while the rule's target is in an earlier state, the target is edited
+    in place, then the same document goes back through update_policy / set_policy, into a new Guard, and through the
+    plain interpreter; permit iff the target AS WRITTEN NOW matches in the engine's mode."""
+    cases = []
+    k = 0
+    for rdef, res in engine_targets() + MORPH_TARGETS:
+        edits = applicable_edits(rdef, res)
+        if not edits:
+            continue
+        for strict in (False, True):
+            k += 1
+            shapes = ("single", "set", "nested", "shadow")
+            use = [(sh, e) for sh in shapes for e in edits]
+            if chk.tier == "quick":
+                # one shape and one edit per (target, request, mode), rotating with the seed
+                use = [(shapes[(k + chk.seed) % 4], edits[(k // 4 + chk.seed) % len(edits)])]
+            for sh, e in use:
+                cases.append({"fam": "engine-morph", "rdef": rdef, "resource": res, "strict": strict, "shape": sh,
+                              "edit": e, "first": (k + len(cases)) % len(ROUTES)})
+    return cases
+
+
+def run_engine_morph_cases(cases):
+    """per case: [[route, allowed-or-Raise], ...] in the order the routes were taken, or None (edit not applicable)"""
+    from rbacx.core.engine import Guard
+    from rbacx.core.model import Action, Context, Resource, Subject
+    from rbacx.core.policy import evaluate
+    from rbacx.core.policyset import decide
+
+    out = []
+
+    async def go():
+        for c in cases:
+            w = pre_state(c["rdef"], c["resource"], c["edit"])
+            if w is None:
+                out.append(None)
+                continue
+            pol = policy_for(c["shape"], w)
+            rr = c["resource"]
+            strict = bool(c["strict"])
+
+            async def ev(guard):
+                try:
+                    d = await guard.evaluate_async(Subject(id="u"), Action("read"),
+                                                   Resource(type=rr.get("type"), id=rr.get("id"), attrs=rr.get("attrs") or {}),
+                                                   Context({}))
+                    return d.allowed
+                except Exception as e:  # noqa: BLE001
+                    return ["Raise", type(e).__name__]
+
+            def plain():
+                env = {"subject": {"id": "u", "roles": [], "attrs": {}}, "action": "read",
+                       "resource": {"type": rr.get("type"), "id": rr.get("id"), "attrs": dict(rr.get("attrs") or {})},
+                       "context": {}}
+                if strict:
+                    env["__strict_types__"] = True
+                try:
+                    return (decide if "policies" in pol else evaluate)(pol, env).get("decision") == "permit"
+                except Exception as e:  # noqa: BLE001
+                    return ["Raise", type(e).__name__]
+
+            # the library sees the earlier state: through a Guard and through the plain interpreter (same request)
+            try:
+                g = Guard(pol, strict_types=strict)
+                await ev(g)
+            except Exception:  # noqa: BLE001  (the earlier state need not be a good document)
+                g = None
+            plain()
+            morph.morph(w, c["rdef"])
+            assert _same(w, c["rdef"]), (w, c["rdef"])
+
+            async def route(i):
+                try:
+                    if i == 0:
+                        if g is None:
+                            return None
+                        (g.update_policy if c["first"] % 2 == 0 else g.set_policy)(pol)
+                        return await ev(g)
+                    if i == 1:
+                        return await ev(Guard(pol, strict_types=strict))
+                    return plain()
+                except Exception as e:  # noqa: BLE001
+                    return ["Raise", type(e).__name__]
+
+            got = []
+            for j in range(len(ROUTES)):
+                i = (c.get("first", 0) + j) % len(ROUTES)
+                a = await route(i)
+                if a is not None:
+                    got.append([ROUTES[i], a])
+            out.append(got)
+
+    asyncio.run(go())
+    return out
+
+
+def engine_cases(chk):
+    """end to end: one permit rule with the target, through Guard in both modes, as single policy,
+    inside a set and nested set; permit iff the target matches in the engine's mode."""
+    cases = []
+    for rdef, res in engine_targets():
         for strict in (False, True):
             for shape in ("single", "set", "nested", "shadow"):
                 cases.append({"fam": "engine", "rdef": rdef, "resource": res, "strict": strict, "shape": shape})
     if chk.tier == "quick":
         cases = [c for i, c in enumerate(cases) if i % 2 == chk.seed % 2 or c["shape"] in ("single", "shadow")]
     return cases
+
+
+def policy_for(shape, rdef):
+    """the document of an engine case; the rule's "resource" IS the object `rdef` (not a copy)"""
+    rule = {"id": "r", "effect": "permit", "actions": ["read"], "resource": rdef}
+    pol = {"algorithm": "deny-overrides", "rules": [rule]}
+    if shape == "shadow":
+        # the rule under test DENIES, a wildcard rule permits: allowed iff the target does NOT match
+        # (a rule whose target does not match must not shadow the more general rule, on any path)
+        pol = {"algorithm": "deny-overrides", "rules": [dict(rule, effect="deny"),
+                                                       {"id": "any", "effect": "permit", "actions": ["read"], "resource": {"type": "*"}}]}
+    elif shape == "set":
+        pol = {"algorithm": "deny-overrides", "policies": [{"id": "p", **pol}]}
+    elif shape == "nested":
+        pol = {"algorithm": "permit-overrides",
+               "policies": [{"id": "outer", "algorithm": "first-applicable", "policies": [{"id": "p", **pol}]}]}
+    return pol
 
 
 def run_engine_cases(cases):
@@ -126,18 +406,7 @@ def run_engine_cases(cases):
 
     async def go():
         for c in cases:
-            rule = {"id": "r", "effect": "permit", "actions": ["read"], "resource": c["rdef"]}
-            pol = {"algorithm": "deny-overrides", "rules": [rule]}
-            if c["shape"] == "shadow":
-                # the rule under test DENIES, a wildcard rule permits: allowed iff the target does NOT match
-                # (a rule whose target does not match must not shadow the more general rule, on any path)
-                pol = {"algorithm": "deny-overrides", "rules": [dict(rule, effect="deny"),
-                                                               {"id": "any", "effect": "permit", "actions": ["read"], "resource": {"type": "*"}}]}
-            elif c["shape"] == "set":
-                pol = {"algorithm": "deny-overrides", "policies": [{"id": "p", **pol}]}
-            elif c["shape"] == "nested":
-                pol = {"algorithm": "permit-overrides",
-                       "policies": [{"id": "outer", "algorithm": "first-applicable", "policies": [{"id": "p", **pol}]}]}
+            pol = policy_for(c["shape"], c["rdef"])
             g = Guard(pol, strict_types=c["strict"])
             r = c["resource"]
 
@@ -165,9 +434,58 @@ def run_engine_cases(cases):
     return out
 
 
+def check_morph_cases(chk, direct, eng):
+    """the model's answer for the target as written NOW is the only allowed one, whatever the object held before"""
+    lines = [lib.model_call("target.resource", c["rdef"], c["resource"], c["strict"]) for c in direct]
+    lines += [lib.model_call("target.resource", c["rdef"], {**c["resource"]}, True if c["strict"] else None) for c in eng]
+    uniq = sorted(set(lines))
+    ans = dict(zip(uniq, (lib.dec(x) for x in lib.run_model(RUNNER, uniq)))) if uniq else {}
+    for c, line in zip(direct, lines):
+        m = ans[line]
+        i = run_morph_direct(c)
+        if i is None:
+            continue
+        chk.count("fam:morph:" + c["edit"])
+        if m == ["Ood"]:
+            chk.count("ood")
+            chk.mark(("ood", repr(c)), False)
+            continue
+        mm = ["Raise"] if isinstance(m, list) and m[0] == "Raise" else m
+        chk.mark(repr(c), isinstance(m, bool))
+        chk.sample({**c, "impl": i, "model": m}, every=997)
+        if i["now"] != mm:
+            chk.violation(f"{c.get('of', 'target')} clause on a target object that match_resource had seen in an earlier "
+                          f"state (edit '{c['edit']}', then edited in place into this target; the earlier state answered "
+                          f"{i['earlier_state']}): implementation {i['now']}, documented meaning of the target as written "
+                          f"now (model Target.v, props/C05.v) {mm}", c, impl=i, model=m)
+    iouts = run_engine_morph_cases(eng) if eng else []
+    for c, line, got in zip(eng, lines[len(direct):], iouts):
+        m = ans[line]
+        if got is None:
+            continue
+        chk.count("fam:engine-morph:" + c["shape"])
+        chk.count("fam:engine-morph:" + c["edit"])
+        if m == ["Ood"] or not isinstance(m, bool):
+            chk.count("ood")
+            continue
+        chk.mark(("engine-morph", repr(c)), True)
+        want = (not m) if c["shape"] == "shadow" else m
+        for how, a in got:
+            chk.count("engine_morph_result:" + str(a))
+            if a != want:
+                chk.violation(f"engine path {c['shape']} strict={c['strict']}: the rule's target, matched once in an earlier "
+                              f"state (edit '{c['edit']}'), was edited in place inside the policy document; then {how}: "
+                              f"allowed={a}, but the target as written now {'matches' if m else 'does not match'} in that mode"
+                              f"{' (the rule under test denies, a wildcard rule permits)' if c['shape'] == 'shadow' else ''} "
+                              "(c05_applicable_only_if_target_matches, c05_engine_mode)", c, impl=got, model=m)
+                break
+
+
 def check_cases(chk, cases, replay=False):
-    direct = [c for c in cases if c.get("fam") != "engine"]
+    direct = [c for c in cases if c.get("fam") not in ("engine", "morph", "engine-morph")]
     eng = [c for c in cases if c.get("fam") == "engine"]
+    check_morph_cases(chk, [c for c in cases if c.get("fam") == "morph"],
+                      [c for c in cases if c.get("fam") == "engine-morph"])
     lines = []
     for c in direct:
         if c["fam"] == "actions":
@@ -235,9 +553,15 @@ def run(chk):
                 "request id over a pool of near-duplicates (1, '1', 1.0, True, ...); attribute value x request "
                 "attribute (scalars, one-of lists, objects) x attrs/attributes key; structural cases; action lists; "
                 "each in lax, strict and legacy-flag mode; plus end-to-end through Guard(strict_types) as single "
-                "policy (compiled path), policy set and nested set. non-trivial = the model answers a boolean; "
+                "policy (compiled path), policy set and nested set; plus the same target OBJECT seen by the library "
+                "in an earlier state (id / type / one list element / one attrs value changed, list shorter, keys "
+                "added or removed; other values or the request's own), edited in place, then matched again directly "
+                "and through update_policy / set_policy / a new Guard / plain evaluate() on the same objects "
+                "(quick: a rotating quarter of the direct cases and one shape+edit per engine pair). "
+                "non-trivial = the model answers a boolean; "
                 "distinct = distinct case")
     chk.assumptions = ["str() of values containing non-printable/non-ASCII strings inside containers is outside the model (ood)"]
-    cases = corpus_cases() + gen_direct(chk) + engine_cases(chk)
+    direct = gen_direct(chk)
+    cases = corpus_cases() + direct + engine_cases(chk) + morph_direct_cases(chk, direct) + engine_morph_cases(chk)
     check_cases(chk, cases)
     chk.exhaustive = True
